@@ -117,8 +117,15 @@ def random_history(rng, k, length, nonnode=True):
     return ops
 
 
+LIGHT_CLASSES = ["light", "lighteq"]
+
+
 def mk(fl, asrt, n0, ops, cls=None, mixed=None):
     c = {"fam": "forest", "fl": fl, "asrt": asrt, "n0": n0, "ops": ops}
+    if fl == "light" and not cls and not mixed:
+        # the LightNodeMixin flavour, too, comes as a plain class and as one with value equality (all nodes equal);
+        # the choice is a function of the history, so that a case is reproducible from its JSON alone
+        cls = LIGHT_CLASSES[1] if (len(repr(ops)) + n0) % 5 < 2 else LIGHT_CLASSES[0]
     if cls:
         c["cls"] = cls
     if mixed:
